@@ -48,3 +48,10 @@ pub fn indexmap_get_mut_linear<'a, K, V, S: BuildHasher, Q: ?Sized + Hash + Equi
     }
     None
 }
+
+
+/// Stub for `alloc::fmt::format` (error paths build their messages with `format!`; the formatting machinery
+/// is irrelevant to every property here and dominates symbolic execution otherwise).
+pub fn empty_format(_args: core::fmt::Arguments<'_>) -> String {
+    String::new()
+}
